@@ -38,6 +38,51 @@ theorem forRange_fold {α σ ρ : Type} (g : α → σ → σ) (xs : List α) (s
   | nil => rfl
   | cons x xs ih => rw [forRange_cons_next (t := []) (s' := g x s) (by simp [Res.pure]), ih]; simp
 
+/-- a loop over `for i, x := range xs` whose body does not use the index -/
+theorem forRange_enum {α σ ρ : Type} (b : Int × α → σ → Res (Step σ ρ)) (g : α → σ → Res (Step σ ρ))
+    (h : ∀ i x s, b (i, x) s = g x s) (xs : List α) (s : σ) : forRange b (Lib.enum xs) s = forRange g xs s := by
+  have key : ∀ (ps : List (Int × α)) (s : σ), forRange b ps s = forRange g (ps.map (·.2)) s := by
+    intro ps
+    induction ps with
+    | nil => intro s; rfl
+    | cons p ps ih =>
+      intro s
+      obtain ⟨i, x⟩ := p
+      simp only [forRange, List.map_cons, h]
+      congr 1
+      funext r
+      cases r <;> simp [ih]
+  rw [key]
+  congr 1
+  simp [Lib.enum, List.map_map]
+  induction xs with
+  | nil => rfl
+  | cons x xs ih => simp [List.range_succ_eq_map, List.zip_map_left, List.map_map] at ih ⊢; exact ih
+
+/-- "add each section in file order, stop at the first that fails": the events of the successes before the first failure,
+and that failure -/
+def tryEach {α β : Type} (f : α → Except Err β) (ev : β → Ev) : List α → List Ev × Option Err
+  | [] => ([], none)
+  | a :: as => match f a with
+    | .error e => ([], some e)
+    | .ok b => (ev b :: (tryEach f ev as).1, (tryEach f ev as).2)
+
+/-- the loop body of that shape -/
+def tryBody {α β : Type} (f : α → Except Err β) (ev : β → Ev) (a : α) (_ : Unit) : Res (Step Unit Err) :=
+  match f a with
+  | .error e => Res.pure (Step.ret e)
+  | .ok b => emit (ev b) (Res.pure (Step.next ()))
+
+theorem forRange_tryEach {α β : Type} (f : α → Except Err β) (ev : β → Ev) (xs : List α) :
+    forRange (tryBody f ev) xs () =
+      ((tryEach f ev xs).1, match (tryEach f ev xs).2 with | none => Out.done () | some e => Out.ret e) := by
+  induction xs with
+  | nil => rfl
+  | cons a as ih =>
+    cases hf : f a with
+    | error e => rw [forRange_cons_ret (t := []) (r := e) (by simp [tryBody, hf, Res.pure])]; simp [tryEach, hf]
+    | ok b => rw [forRange_cons_next (t := [ev b]) (s' := ()) (by simp [tryBody, hf, Res.pure, emit]), ih]; simp [tryEach, hf]
+
 /-- the aggregator loop of `Table.Dispatch`: every aggregator is offered the point, in order, until one consumes it -/
 def aggTrace (fields : List Bytes) (val : F64) (ts : Int) : List AggregatorI → List Ev × Bool
   | [] => ([], false)
